@@ -153,6 +153,13 @@ func (r *Results) Next() bool {
 			// the teardown goroutine's last step so that no goroutine of this
 			// query is still running once Next has reported completion.
 			<-r.done
+			// The pipeline also winds down, and closes rowChan, after the
+			// query was canceled or closed. When this receive wins the race
+			// against ctx.Done below, that is still termination, not
+			// completion: a canceled query must never read as a clean one.
+			if r.ctx.Err() != nil {
+				return r.terminate()
+			}
 			// Clean completion: all workers finished and every buffered row
 			// has been delivered. Recorded errors (failed blocks, a failed
 			// MetaStore iteration), if any, are the terminal state; the query
